@@ -216,12 +216,44 @@ def empties_case(n):
 
 
 # ----------------------------------------------------------------- running the implementation
+# Synthetic item classes are pooled across cases: functools.singledispatch has no unregister and
+# recomputes its dispatch over the whole registry after every register(), so one fresh class per
+# object per case makes a long run quadratic.  Each pooled class is registered ONCE through the
+# public unwrap_stackitem.register with a trampoline to the running case's hook.
+_POOL = {}
+_CURRENT = {}
+
+
+def _pooled_class(o, wref):
+    key = (o, bool(wref))
+    cls = _POOL.get(key)
+    if cls is None:
+        from stackscope import unwrap_stackitem
+        # all synthetic objects compare equal: `items[-1] is next_inner` must be an identity test
+        body = {"__repr__": (lambda self, o=o: f"<O{o}>"), "__iter__": (lambda self: self),
+                "__next__": (lambda self: 1), "_synthetic": True,
+                "__eq__": (lambda self, other: getattr(other, "_synthetic", False)),
+                "__ne__": (lambda self, other: not getattr(other, "_synthetic", False)),
+                "__hash__": (lambda self: 7)}
+        if not wref:
+            body["__slots__"] = ()
+        cls = type(f"Obj{o}", (), body)
+
+        def trampoline(x, cls=cls):
+            hook = _CURRENT.get(cls)
+            return None if hook is None else hook(x)
+        unwrap_stackitem.register(cls, trampoline)
+        _POOL[key] = cls
+    return cls
+
+
 def run_impl(case):
     import stackscope
     from stackscope import _extract, _customization
     from stackscope import extract, extract_outermost, unwrap_stackitem, elaborate_frame, yields_frames, Context
 
     nf, no = case["nf"], case["no"]
+    _CURRENT.clear()
     frames, codes = [None] * nf, [None] * nf
     classes, objs = [None] * no, [None] * no
 
@@ -247,15 +279,7 @@ def run_impl(case):
             classes[o] = None
         else:
             wref = case["attr"].get(str(o), {}).get("wref", True)
-            # all synthetic objects compare equal: `items[-1] is next_inner` must be an identity test
-            body = {"__repr__": (lambda self, o=o: f"<O{o}>"), "__iter__": (lambda self: self),
-                    "__next__": (lambda self: 1), "_synthetic": True,
-                    "__eq__": (lambda self, other: getattr(other, "_synthetic", False)),
-                    "__ne__": (lambda self, other: not getattr(other, "_synthetic", False)),
-                    "__hash__": (lambda self: 7)}
-            if not wref:
-                body["__slots__"] = ()
-            classes[o] = type(f"Obj{o}", (), body)
+            classes[o] = _pooled_class(o, wref)
             objs[o] = classes[o]()
     for f in range(nf):
         if frames[f] is None:
@@ -270,22 +294,21 @@ def run_impl(case):
         if spec[0] in ("none", "gen"):
             continue
         if spec[0] == "one":
-            unwrap_stackitem.register(classes[o], lambda x, s=spec: conv(s[1]))
+            _CURRENT[classes[o]] = lambda x, s=spec: conv(s[1])
         elif spec[0] == "seq":
             ctor = tuple if spec[2] == "tuple" else list
-            unwrap_stackitem.register(
-                classes[o], lambda x, s=spec, ctor=ctor: ctor(None if i is None else conv(i) for i in s[1]))
+            _CURRENT[classes[o]] = lambda x, s=spec, ctor=ctor: ctor(None if i is None else conv(i) for i in s[1])
         elif spec[0] == "iter":
             def gen(x, s=spec, o=o):
                 for i in s[1]:
                     yield conv(i)
                 if s[2]:
                     raise Boom("iter", o)
-            unwrap_stackitem.register(classes[o], yields_frames(gen))
+            _CURRENT[classes[o]] = yields_frames(gen)
         elif spec[0] == "raise":
             def bad(x, o=o):
                 raise Boom("unwrap", o)
-            unwrap_stackitem.register(classes[o], bad)
+            _CURRENT[classes[o]] = bad
     for f in range(nf):
         spec = case["elab"].get(str(f), ["none", None, True])
         if spec[0] == "none":
